@@ -283,13 +283,13 @@ func (c *nxCluster) check() string {
 		la := h.node.sm.GetLastApplied()
 		want := 0
 		for i := range c.applied {
-			if i <= la {
+			if i <= la && i > h.recoveredIdx {
 				want++
 			}
 		}
 		got := 0
 		for i := range h.seenUpdates {
-			if i <= la {
+			if i <= la && i > h.recoveredIdx {
 				got++
 			}
 		}
@@ -372,7 +372,7 @@ func (c *nxCluster) Canon() []byte {
 	}
 	u := c.used
 	b.Sep('B').U(uint64(u.timeouts), uint64(u.ticks), uint64(u.crashes), uint64(u.drops), uint64(u.dups), uint64(u.reorders),
-		uint64(u.writes), uint64(u.reads), uint64(u.lazy), uint64(u.heartbeats), uint64(u.transfers), uint64(u.stops), uint64(c.devs), uint64(c.spos))
+		uint64(u.writes), uint64(u.reads), uint64(u.lazy), uint64(u.heartbeats), uint64(u.transfers), uint64(u.stops), uint64(u.partitions), uint64(c.partition), uint64(c.devs), uint64(c.spos))
 	ks := make([]uint64, 0)
 	for k := range c.leaderOf {
 		ks = append(ks, k)
